@@ -20,10 +20,10 @@ import (
 )
 
 var (
-	tier   = flag.String("tier", "quick", "quick|thorough")
-	replay = flag.String("replay", "", "replay file")
-	specs  = flag.String("specs", "", "comma separated vocabulary files (default: the four shipped)")
-	propID = flag.String("as", "", "report under this property id (used by C15)")
+	tier       = flag.String("tier", "quick", "quick|thorough")
+	replay     = flag.String("replay", "", "replay file")
+	specs      = flag.String("specs", "", "comma separated vocabulary files (default: the four shipped)")
+	propID     = flag.String("as", "", "report under this property id (used by C15)")
 	noMapVocab = flag.String("nomap-vocab", "", "C15: do not generate the 'Map' spelling for natural-language properties of this vocabulary in C01 (the defect is reported once, by C12)")
 )
 
